@@ -265,7 +265,11 @@ C18B_OK(cfg, h) == All(C18B_Clauses(cfg, Digest(cfg, h)))
 \* the batch part of C17: the item reaches the exec function unchanged; what the exec function returns - a value or an
 \* error Result - is what post finds in the item's slot, never wrapped a second time and never stripped
 C17B_Clauses(cfg, D) ==
-  LET c == C06_Clauses(cfg, D) IN [itemToExec |-> c.itemArg, execToSlot |-> c.slotOutcome /\ c.noForeign]
+  LET c == C06_Clauses(cfg, D) IN
+  [itemToExec |-> c.itemArg,
+   \* every item prep produced - also one that already is an error Result - is handed to the exec function
+   everyItemReachesExec |-> (~cfg.stopmode /\ ~Cancelled(D) /\ PrepOk(D) /\ N(cfg) >= 1) => \A i \in 1..cfg.n : D.pipes[i].ran,
+   execToSlot |-> c.slotOutcome /\ c.noForeign]
 
 \* the batch part of C04: prep and post errors are returned transparently, item errors stay in slots
 C04B_Clauses(cfg, D) ==
